@@ -193,6 +193,37 @@ theorem eviction_only_when_full (cfg : Cfg) (l : Ledger) (ops : List Op)
   unfold revalidate
   rw [if_pos (by rw [hms, hw]; simpa using h)]
 
+/-- **a rejected set leaves nothing behind**: when a submission fails — at the check against the
+tip or at any position of the loop against the pool — then, unless the pool is full, the next
+entry point reports exactly the pool that was reported before the submission: the slices, the index
+and the weight are rolled back to what they were AFTER the submission's own re-validation, so the
+forced re-validation neither keeps a member of the set nor evicts anything. -/
+theorem rejected_set_leaves_pool (cfg : Cfg) (S : Nat → Bool × List Nat × List Nat) (l : Ledger) (ops : List Op)
+    (h : Hist S ops) (v2 : Bool) (set : List Txn)
+    (hfull : sumW ((seen cfg (reach cfg l ops)).txns ++ (seen cfg (reach cfg l ops)).v2txns) < cfg.maxWeight * 10)
+    (herr : (addSet cfg v2 (seen cfg (reach cfg l ops)) set).2 = .err) :
+    (seen cfg (addSet cfg v2 (seen cfg (reach cfg l ops)) set).1).txns = (seen cfg (reach cfg l ops)).txns ∧
+    (seen cfg (addSet cfg v2 (seen cfg (reach cfg l ops)) set).1).v2txns = (seen cfg (reach cfg l ops)).v2txns := by
+  obtain ⟨gc, gi, gv⟩ := seen_good cfg S l ops h
+  have hw := pool_weight_exact cfg l ops
+  have hlr := revalidate_lr (cfg := cfg) (run_lrinv cfg ops (Pool.init l) (fun hc => by simp [Pool.init] at hc))
+  have hms : (seen cfg (reach cfg l ops)).ms.isSome = true := revalidate_ms cfg _
+  have ho := addSet_outcome cfg v2 (seen cfg (reach cfg l ops)) set hms
+  have hidem : seen cfg (seen cfg (reach cfg l ops)) = seen cfg (reach cfg l ops) := eviction_only_when_full cfg l ops hfull
+  generalize addSet cfg v2 (seen cfg (reach cfg l ops)) set = r at ho herr
+  cases ho with
+  | invalid _ => rw [hidem]; exact ⟨rfl, rfl⟩
+  | known _ _ => cases herr
+  | added p' new _ _ _ _ _ _ _ _ _ _ _ _ _ _ => cases herr
+  | conflict p' _ _ h1 h2 _ h4 h5 h6 h7 hms' =>
+    have hrv : seen cfg p' = rebuild cfg p' := by
+      unfold seen revalidate
+      rw [hms']
+      simp only [Option.isSome_none, Bool.false_and, Bool.false_eq_true, ↓reduceIte]
+      rw [if_neg (by rw [h4, hw]; omega)]
+    rw [hrv]
+    exact rebuild_same gc gi gv h1 h2 h5 (by rw [h6]; exact hlr.1) (by rw [h7]; exact hlr.2)
+
 /-! ### retention
 
 "Stays reported until it is confirmed, one of its inputs is spent by an applied block or its
